@@ -320,11 +320,12 @@ def walk (C : Cfg) : Nat → Input → Bytes → Bytes → Bool → Bool → Nat
           if x.baseKind == K.sdNotDirective then
             match locOf x with
             | some (o, l, line) =>
-              if !(trim (bytesOf inp o l)).isEmpty then .ok { w1 with lastItemLine := some line } else .ok w1
+              let text := trimEnd (bytesOf inp o l)
+              if !text.isEmpty then .ok { w1 with lastItemLine := some (line + text.count 10) } else .ok w1
             | none => .ok w1
           else if x.baseKind == K.compilerDirective then
             match locOf x with
-            | some (_, _, line) => .ok { w1 with lastItemLine := some line }
+            | some (o, l, line) => .ok { w1 with lastItemLine := some (line + (trimEnd (bytesOf inp o l)).count 10) }
             | none => .ok w1
           else .ok w1
       match b2 with
@@ -367,7 +368,7 @@ def walk (C : Cfg) : Nat → Input → Bytes → Bytes → Bool → Bool → Nat
                 let w' := (acc.1.skipPush k).skipPush id
                 let name := (identOf K inp id).getD []
                 if acc.2 then (w'.skipPush body, true)
-                else if (w'.defines.get? name).isSome || isPredefined ifname then (w', true)
+                else if (w'.defines.get? name).isSome || isPredefined (if bk == K.ifdef then name else ifname) then (w', true)
                 else (w'.skipPush body, false)) (wB, hit0)
               let wC := match els with
                 | some (k, body) =>
@@ -376,15 +377,21 @@ def walk (C : Cfg) : Nat → Input → Bytes → Bytes → Bool → Bool → Nat
                 | none => r.1
               cont wC
           else if bk == K.whiteSpace then
-            if !w2.skipWs && !stripComments then
+            if !w2.skipWs then
               if x.kind == K.wsSpace then
                 match locOf x with
-                | some (o, l, _) => cont { w2 with out := w2.out.push (bytesOf inp o l) (some (path, ⟨o + l, o + l⟩)) }
+                | some (o, l, _) => cont { w2 with out := w2.out.push (bytesOf inp o l) (some (path, ⟨o, o + l⟩)) }
                 | none => cont w2
               else cont w2
             else cont w2
           else if bk == K.comment then
-            if !stripComments then cont (pushLoc w2 x) else cont w2
+            if !stripComments then cont (pushLoc w2 x)
+            else
+              match locOf x with
+              | some (o, l, _) =>
+                let sep : Bytes := if (bytesOf inp o l).getLast? == some 10 then [10] else [32]
+                cont { w2 with out := w2.out.push sep (some (path, ⟨o, o + l⟩)) }
+              | none => cont w2
           else if bk == K.textMacroDefinition then
             let wA := { (w2.skipPush x) with skip := true }
             match x.kids with
@@ -446,7 +453,7 @@ def walk (C : Cfg) : Nat → Input → Bytes → Bytes → Bool → Bool → Nat
                       match lit with
                       | some u =>
                         let wD := wC.skipPush u
-                        (match resolveUsage C fuel inp s path u wD.defines stripComments (resolveDepth + 1) with
+                        (match resolveUsage C fuel inp s path u wD.defines stripComments (resolveDepth + 1) includeDepth with
                          | .error e => .error e
                          | .ok (some (p, _, _)) => .ok (trimMatches 34 (trim p), wD)
                          | .ok none => .ok ([], wD))
@@ -460,12 +467,12 @@ def walk (C : Cfg) : Nat → Input → Bytes → Bytes → Bool → Bool → Nat
                         | some ip => pathJoin ip p0
                         | none => p0
                       else p0
-                    match preprocessInner C fuel p1 wE.defines stripComments false (includeDepth + 1) with
+                    match preprocessInner C fuel p1 wE.defines stripComments false resolveDepth (includeDepth + 1) with
                     | .error e => .error (.include e)
                     | .ok (inc, nd) => cont { wE with defines := nd, out := wE.out.merge inc }
           else if bk == K.textMacroUsage then
             let wA := { (w2.skipPush x) with skip := true }
-            match resolveUsage C fuel inp s path x wA.defines stripComments (resolveDepth + 1) with
+            match resolveUsage C fuel inp s path x wA.defines stripComments (resolveDepth + 1) includeDepth with
             | .error e => .error e
             | .ok r =>
               let wB := match r with
@@ -494,20 +501,20 @@ def walk (C : Cfg) : Nat → Input → Bytes → Bytes → Bool → Bool → Nat
             | none => cont wA
           else cont w2
 
-/-- `preprocess_inner`: read the file, then `preprocess_str` with `resolve_depth = 0` -/
-def preprocessInner (C : Cfg) : Nat → Bytes → Defines → Bool → Bool → Nat → Except PpError (POut × Defines)
-  | 0, _, _, _, _, _ => .error .oof
-  | fuel + 1, path, preDefines, stripComments, ignoreInclude, includeDepth =>
+/-- `preprocess_inner`: read the file, then `preprocess_str` with both depth counters passed through -/
+def preprocessInner (C : Cfg) : Nat → Bytes → Defines → Bool → Bool → Nat → Nat → Except PpError (POut × Defines)
+  | 0, _, _, _, _, _, _ => .error .oof
+  | fuel + 1, path, preDefines, stripComments, ignoreInclude, resolveDepth, includeDepth =>
     match C.fs.find path with
     | none => .error (.file path)
     | some none => .error (.readUtf8 path)
-    | some (some content) => preprocessStr C fuel content path preDefines ignoreInclude stripComments 0 includeDepth
+    | some (some content) => preprocessStr C fuel content path preDefines ignoreInclude stripComments resolveDepth includeDepth
 
 /-- `resolve_text_macro_usage` -/
-def resolveUsage (C : Cfg) : Nat → Input → Bytes → Bytes → Tree → Defines → Bool → Nat →
+def resolveUsage (C : Cfg) : Nat → Input → Bytes → Bytes → Tree → Defines → Bool → Nat → Nat →
     Except PpError (Option (Bytes × Option (Bytes × Range) × Defines))
-  | 0, _, _, _, _, _, _, _ => .error .oof
-  | fuel + 1, inp, _s, path, x, defines, stripComments, resolveDepth =>
+  | 0, _, _, _, _, _, _, _, _ => .error .oof
+  | fuel + 1, inp, _s, path, x, defines, stripComments, resolveDepth, includeDepth =>
     let K := C.K
     let id := (match (x.kids.drop 1).head? with | some name => identOf K inp name | none => none).getD []
     if resolveDepth > recursiveLimit then .error .exceedRecursiveLimit
@@ -565,7 +572,7 @@ def resolveUsage (C : Cfg) : Nat → Input → Bytes → Bytes → Tree → Defi
                   let c6 := replaceAll n c5 [92, 13] [13]
                   acc ++ c6) []
               let replaced2 := match paren with | some p => replaced ++ p | none => replaced
-              match preprocessStr C fuel replaced2 path defines false stripComments resolveDepth 0 with
+              match preprocessStr C fuel replaced2 path defines false stripComments resolveDepth includeDepth with
               | .error e => .error e
               | .ok (out, nd) => .ok (some (out.text, dt.origin, nd))
 end
